@@ -104,7 +104,7 @@ def gen_cases(tier, seed):
             cmany.update(n_live=800, f_live=0.05, n_shell=1, n_eff=1500 if tier == 'quick' else 5000, n_update=None,
                          n_like_new_bound=None, periodic=None, discard_exploration=False, split_threshold=1.0,
                          n_points_min=20, enlarge_per_dim=1.1)
-            for r in range(2 if tier == 'quick' else 4):
+            for r in range(1 if tier == 'quick' else 4):
                 cases.append(dict(base, prob=pmany, cfg=cmany, kind='every_k', residue=r, R=4, deep=True, stride=6,
                                   many=True, i=len(cases)))
         cases.append(dict(base, kind='multi', i=len(cases)))
